@@ -79,31 +79,71 @@ Proof. apply sort_uniq_ascending. Qed.
 Definition chan_of_op (op : Z * Z * Z) : channel :=
   mkCh (fst (fst op)) (snd (fst op)) (snd op) (negb (fst (fst op) =? 0)) true.
 
-(* both lists grow by the SAME channels; the other tables are untouched *)
+(* an accepted AddChannel call: the band accepts extra channels, the DR range consists of uplink
+   data-rates of the band, and exactly one channel is appended to both lists *)
+Definition range_uplink (t : tables) (c : channel) : Prop :=
+  ch_min c <= ch_max c /\ forall d, ch_min c <= d <= ch_max c -> dr_is_uplink t d = true.
+
+Lemma add_channel_Ok t f mn mx t' : add_channel t f mn mx = Ok t' ->
+  t_extra t = true /\ range_uplink t (mkCh f mn mx (negb (f =? 0)) true)
+  /\ t' = set_channels t (t_up t ++ [mkCh f mn mx (negb (f =? 0)) true])
+                          (t_down t ++ [mkCh f mn mx (negb (f =? 0)) true]).
+Proof.
+  unfold add_channel. destruct (t_extra t); cbn [negb]; [|discriminate].
+  destruct (add_dr_range_ok t mn mx) eqn:R; cbn [negb]; [|discriminate].
+  destruct (add_frequency_ok f); cbn [negb]; [|discriminate].
+  intros [= <-]. repeat split; auto; cbn [ch_min ch_max].
+  - unfold add_dr_range_ok in R. destruct (dr_is_uplink t mn && dr_is_uplink t mx); [|discriminate].
+    destruct (Z.gtb_spec mn mx); [discriminate | lia].
+  - intros d Hd. unfold add_dr_range_ok in R. destruct (dr_is_uplink t mn && dr_is_uplink t mx); [|discriminate].
+    destruct (mn >? mx); [discriminate|]. rewrite forallb_forall in R. apply R. now apply zrange_In.
+Qed.
+
+Lemma add_channel_no_extra t f mn mx : t_extra t = false -> add_channel t f mn mx = Err.
+Proof. unfold add_channel. now intros ->. Qed.
+
+Lemma range_uplink_drs t t' c : t_drs t' = t_drs t -> range_uplink t' c -> range_uplink t c.
+Proof. unfold range_uplink, dr_is_uplink. now intros ->. Qed.
+
+(* both lists grow by the SAME channels, each with a range of uplink data-rates; the other
+   tables are untouched *)
 Lemma add_channels_shape t ops :
   exists added, t_up (fst (add_channels t ops)) = t_up t ++ added
                 /\ t_down (fst (add_channels t ops)) = t_down t ++ added
                 /\ incl added (map chan_of_op ops)
                 /\ t_drs (fst (add_channels t ops)) = t_drs t
-                /\ t_extra (fst (add_channels t ops)) = t_extra t.
+                /\ t_extra (fst (add_channels t ops)) = t_extra t
+                /\ (forall c, In c added -> range_uplink t c).
 Proof.
   revert t. induction ops as [|[[f mn] mx] ops IH]; intros t.
-  - exists []. cbn. rewrite !app_nil_r. repeat split; auto. apply incl_refl.
-  - cbn [add_channels]. unfold add_channel. destruct (t_extra t) eqn:E; cbn [negb].
-    + cbv zeta. cbn [fst].
-      set (c := mkCh f mn mx (negb (f =? 0)) true).
-      destruct (IH (set_channels t (t_up t ++ [c]) (t_down t ++ [c]))) as [added [Hu [Hd [Hi [Hr He]]]]].
+  - exists []. cbn [add_channels fst map]. rewrite !app_nil_r.
+    split; [reflexivity|]. split; [reflexivity|]. split; [apply incl_refl|]. split; [reflexivity|]. split; [reflexivity|].
+    intros c [].
+  - cbn [add_channels]. destruct (add_channel t f mn mx) as [t1| | |] eqn:E; cbn [fst].
+    + apply add_channel_Ok in E. destruct E as [Hx [Hv ->]].
+      set (c := mkCh f mn mx (negb (f =? 0)) true) in *.
+      destruct (IH (set_channels t (t_up t ++ [c]) (t_down t ++ [c]))) as [added [Hu [Hd [Hi [Hr [He Hva]]]]]].
       exists (c :: added). cbn [t_up t_down t_drs t_extra set_channels] in *.
-      rewrite Hu, Hd, <- !app_assoc. repeat split; auto; try congruence.
-      intros x [<-|Hx]; [now left | right; now apply Hi].
-    + cbn [fst]. destruct (IH t) as [added [Hu [Hd [Hi [Hr He]]]]].
-      exists added. repeat split; auto; try congruence. intros x Hx. right. now apply Hi.
+      rewrite Hu, Hd, <- !app_assoc.
+      split; [reflexivity|]. split; [reflexivity|].
+      split; [intros x [<-|Hx']; [now left | right; now apply Hi]|].
+      split; [exact Hr|]. split; [exact He|].
+      intros x [<-|Hx']; [exact Hv|]. eapply range_uplink_drs; [|apply Hva; exact Hx']. reflexivity.
+    + destruct (IH t) as [added [Hu [Hd [Hi [Hr [He Hva]]]]]].
+      exists added. split; [exact Hu|]. split; [exact Hd|].
+      split; [intros x Hx; right; now apply Hi|]. split; [exact Hr|]. split; [exact He|]. exact Hva.
+    + destruct (IH t) as [added [Hu [Hd [Hi [Hr [He Hva]]]]]].
+      exists added. split; [exact Hu|]. split; [exact Hd|].
+      split; [intros x Hx; right; now apply Hi|]. split; [exact Hr|]. split; [exact He|]. exact Hva.
+    + destruct (IH t) as [added [Hu [Hd [Hi [Hr [He Hva]]]]]].
+      exists added. split; [exact Hu|]. split; [exact Hd|].
+      split; [intros x Hx; right; now apply Hi|]. split; [exact Hr|]. split; [exact He|]. exact Hva.
 Qed.
 
 Lemma add_channels_no_extra t ops : t_extra t = false -> fst (add_channels t ops) = t.
 Proof.
   intros E. induction ops as [|[[f mn] mx] ops IH]; [reflexivity|].
-  cbn [add_channels]. unfold add_channel. rewrite E. cbn [negb fst]. exact IH.
+  cbn [add_channels]. rewrite (add_channel_no_extra t f mn mx E). cbn [fst]. exact IH.
 Qed.
 
 Lemma with_tables_same c : with_tables c (c_tab c) = c.
@@ -120,23 +160,30 @@ Qed.
 Lemma dr_defined_up_drs t t' d : t_drs t' = t_drs t -> dr_defined_up t' d = dr_defined_up t d.
 Proof. unfold dr_defined_up. now intros ->. Qed.
 
+Lemma dr_is_uplink_defined_up t d : dr_is_uplink t d = dr_defined_up t d.
+Proof. reflexivity. Qed.
+
 Lemma enabled_drs_after_add_channels c : In c band_configs -> forall ops,
   let t' := fst (add_channels (c_tab c) ops) in
   (forall d, In d (get_enabled_uplink_data_rates t') <->
              exists ch, In ch (t_up t') /\ ch_min ch <= d <= ch_max ch)
   /\ strictly_ascending (get_enabled_uplink_data_rates t') = true
-  /\ ((forall f mn mx, In (f, mn, mx) ops -> uplink_channel_closed (c_tab c) mn mx = true) ->
-      forall d, In d (get_enabled_uplink_data_rates t') -> dr_defined_up t' d = true).
+  /\ (forall ch, In ch (t_up t') -> ch_min ch <= ch_max ch /\
+                 forall d, ch_min ch <= d <= ch_max ch -> dr_defined_up t' d = true)
+  /\ (forall d, In d (get_enabled_uplink_data_rates t') -> dr_defined_up t' d = true).
 Proof.
   intros Hc ops t'. split; [intros d; apply enabled_drs_spec|]. split; [apply enabled_drs_ascending|].
-  intros Hops d Hd. apply enabled_drs_spec in Hd as [ch [Hin Hr]].
-  destruct (add_channels_shape (c_tab c) ops) as [added [Hu [_ [Hi [Hdrs _]]]]].
-  fold t' in Hu, Hdrs. rewrite (dr_defined_up_drs _ _ d Hdrs).
-  rewrite Hu in Hin. apply in_app_or in Hin as [Hin|Hin].
-  - destruct (closure c Hc) as [Hup _]. cbv zeta in Hup. destruct (Hup ch Hin) as [_ H]. now apply H.
-  - apply Hi in Hin. apply in_map_iff in Hin as [[[f mn] mx] [E Hop]]. subst ch.
-    cbn [chan_of_op ch_min ch_max fst snd] in Hr.
-    eapply uplink_channel_closed_spec; [eapply Hops; exact Hop | exact Hr].
+  destruct (add_channels_shape (c_tab c) ops) as [added [Hu [_ [_ [Hdrs [_ Hva]]]]]].
+  fold t' in Hu, Hdrs.
+  assert (Hch : forall ch, In ch (t_up t') -> ch_min ch <= ch_max ch /\
+                forall d, ch_min ch <= d <= ch_max ch -> dr_defined_up t' d = true).
+  { intros ch Hin. rewrite Hu in Hin. apply in_app_or in Hin as [Hin|Hin].
+    - destruct (closure c Hc) as [Hup _]. cbv zeta in Hup. destruct (Hup ch Hin) as [Hle H].
+      split; [exact Hle|]. intros d Hd. rewrite (dr_defined_up_drs _ _ d Hdrs). now apply H.
+    - destruct (Hva ch Hin) as [Hle H]. split; [exact Hle|]. intros d Hd.
+      rewrite (dr_defined_up_drs _ _ d Hdrs), <- dr_is_uplink_defined_up. now apply H. }
+  split; [exact Hch|].
+  intros d Hd. apply enabled_drs_spec in Hd as [ch [Hin Hr]]. destruct (Hch ch Hin) as [_ H]. now apply H.
 Qed.
 
 (* ---- C12: RX1 channel / frequency after a history ---------------------------------------- *)
@@ -190,7 +237,10 @@ Proof.
     assert (Hs : spec_rx1_channel reg i = i) by (destruct reg; try reflexivity; discriminate).
     rewrite Hs. exists d.
     assert (Hidx : get_rx1_channel_index c' i = Ok i).
-    { unfold get_rx1_channel_index, c', with_tables. cbn [c_kind]. destruct (c_kind c); try reflexivity; discriminate. }
+    { pose proof (zindex_Ok_range _ _ _ Hu) as Hi0.
+      unfold get_rx1_channel_index, c', with_tables. cbn [c_kind].
+      replace (i <? 0) with false by (symmetry; apply Z.ltb_ge; lia).
+      destruct (c_kind c); try reflexivity; discriminate. }
     assert (Hfr : get_rx1_frequency c' (ch_freq u) = Ok (ch_freq u)).
     { unfold get_rx1_frequency, c', with_tables. cbn [c_kind]. destruct (c_kind c); try reflexivity; discriminate. }
     repeat split.
@@ -231,10 +281,10 @@ Proof.
       try (destruct (IH t) as [added H]; exists added; exact H).
     destruct (IH t1) as [added [Hu [Hd Hx]]].
     destruct o as [f mn mx|i|i]; cbn [apply_op] in E.
-    + unfold add_channel in E. destruct (t_extra t) eqn:X; cbn [negb] in E; [|discriminate].
-      injection E as <-. cbn [t_up t_down t_extra set_channels] in *.
+    + apply add_channel_Ok in E. destruct E as [X [_ ->]].
+      cbn [t_up t_down t_extra set_channels] in *.
       exists (mkCh f mn mx (negb (f =? 0)) true :: added).
-      rewrite Hu, Hd, <- !app_assoc. repeat split; auto. discriminate.
+      rewrite Hu, Hd, <- !app_assoc. repeat split; auto. congruence.
     + unfold set_enabled_index in E. destruct ((i <? 0) || (i >? zlen (t_up t) - 1)); [discriminate|].
       injection E as <-. cbn [t_up t_down t_extra set_channels] in *.
       exists added. rewrite Hu, Hd, !map_app, map_nth_ch_fc by reflexivity. auto.
@@ -281,7 +331,10 @@ Proof.
     assert (Hs : spec_rx1_channel reg i = i) by (destruct reg; try reflexivity; discriminate).
     rewrite Hs. exists d.
     assert (Hidx : get_rx1_channel_index c' i = Ok i).
-    { unfold get_rx1_channel_index, c', with_tables. cbn [c_kind]. destruct (c_kind c); try reflexivity; discriminate. }
+    { pose proof (zindex_Ok_range _ _ _ Hu) as Hi0.
+      unfold get_rx1_channel_index, c', with_tables. cbn [c_kind].
+      replace (i <? 0) with false by (symmetry; apply Z.ltb_ge; lia).
+      destruct (c_kind c); try reflexivity; discriminate. }
     assert (Hfr : get_rx1_frequency c' (ch_freq u) = Ok (ch_freq u)).
     { unfold get_rx1_frequency, c', with_tables. cbn [c_kind]. destruct (c_kind c); try reflexivity; discriminate. }
     repeat split.
